@@ -151,6 +151,11 @@ func vfC26Dir(rec *evid.Rec, di, n int, nameKind string, cache bool) {
 					break
 				}
 				desc := fmt.Sprintf("%s %s limit=%d cookie=%d", proc, desc0, lim, cookie)
+				// a limit below the fixed part of the result (attributes, verifier, list end, eof) cannot hold any listing
+				lcls := ""
+				if lim < 104 {
+					lcls = "/limit-below-fixed-part"
+				}
 				// what fits?
 				remaining := names[min64i(len(got), len(names)):]
 				oneFits := false
@@ -175,7 +180,7 @@ func vfC26Dir(rec *evid.Rec, di, n int, nameKind string, cache bool) {
 					break
 				}
 				if r.ResLen > int(lim) {
-					rec.Violate("C26/"+proc+"/resok-larger-than-limit", fmt.Sprintf("%s: resok is %d bytes", desc, r.ResLen), nil)
+					rec.Violate("C26/"+proc+"/resok-larger-than-limit"+lcls, fmt.Sprintf("%s: resok is %d bytes", desc, r.ResLen), nil)
 				}
 				if len(r.Entries) == 0 && !r.EOF {
 					if oneFits {
